@@ -251,6 +251,27 @@ static int add_term(vnacal_new_measurement_t *vnmp,
 }
 
 /*
+ * err_unknown_s: report an S parameter that's needed but wasn't given
+ *   @vnmp: measured standard
+ *   @s_cell: cell of the S matrix
+ *
+ * A standard may leave cells of its S matrix unspecified (rectangular
+ * S matrix), but not between ports that are connected through the
+ * standard: the equations need them.
+ */
+static int err_unknown_s(const vnacal_new_measurement_t *vnmp, int s_cell)
+{
+    const vnacal_new_t *vnp = vnmp->vnm_vnp;
+    const int s_columns = VL_S_COLUMNS(&vnp->vn_layout);
+
+    _vnacal_error(vnp->vn_vcp, VNAERR_USAGE, "vnacal_new_add: "
+	    "S%d,%d of the standard is required: ports with a signal "
+	    "path between them must have all their S parameters given",
+	    s_cell / s_columns + 1, s_cell % s_columns + 1);
+    return -1;
+}
+
+/*
  * build_terms_t8: build coefficients for T8/TE10 error terms
  *   @vnep: vnacal_new_equation_t structure
  *
@@ -293,7 +314,9 @@ static int build_terms_t8(vnacal_new_equation_t *vnep)
 	if (!vnmp->vnm_connectivity_matrix[v_cell]) {
 	    continue;
 	}
-	assert(vnprp != NULL);
+	if (vnprp == NULL) {
+	    return err_unknown_s(vnmp, s_cell);
+	}
 	if (vnprp != vnp->vn_zero) {
 	    if (add_term(vnmp, anchors, base_coefficient + eq_row,
 			/*v_columns*/m_columns, /*negative*/true,
@@ -334,7 +357,9 @@ static int build_terms_t8(vnacal_new_equation_t *vnep)
 	    if (!vnmp->vnm_connectivity_matrix[v_cell]) {
 		continue;
 	    }
-	    assert(vnprp != NULL);
+	    if (vnprp == NULL) {
+		return err_unknown_s(vnmp, s_cell);
+	    }
 	    if (vnprp != vnp->vn_zero) {
 		assert(vnmp->vnm_m_matrix[m_cell] != NULL);
 		if (add_term(vnmp, anchors, base_coefficient + tx_d,
@@ -466,7 +491,9 @@ static int build_terms_u8(vnacal_new_equation_t *vnep)
 	    if (!vnmp->vnm_connectivity_matrix[v_cell]) {
 		continue;
 	    }
-	    assert(vnprp != NULL);
+	    if (vnprp == NULL) {
+		return err_unknown_s(vnmp, s_cell);
+	    }
 	    if (vnprp != vnp->vn_zero) {
 		assert(vnmp->vnm_m_matrix[m_cell] != NULL);
 		if (add_term(vnmp, anchors, base_coefficient + ux_d,
@@ -490,7 +517,9 @@ static int build_terms_u8(vnacal_new_equation_t *vnep)
 	if (!vnmp->vnm_connectivity_matrix[v_cell]) {
 	    continue;
 	}
-	assert(vnprp != NULL);
+	if (vnprp == NULL) {
+	    return err_unknown_s(vnmp, s_cell);
+	}
 	if (vnprp != vnp->vn_zero) {
 	    if (add_term(vnmp, anchors, base_coefficient + eq_column,
 			/*v_columns*/m_rows, /*negative*/true,
@@ -848,7 +877,9 @@ static int build_terms_ue14(vnacal_new_equation_t *vnep)
 	    if (!vnmp->vnm_connectivity_matrix[v_cell]) {
 		continue;
 	    }
-	    assert(vnprp != NULL);
+	    if (vnprp == NULL) {
+		return err_unknown_s(vnmp, s_cell);
+	    }
 	    if (vnprp != vnp->vn_zero) {
 		assert(vnmp->vnm_m_matrix[m_cell] != NULL);
 		if (add_term(vnmp, anchors, base_coefficient + ux_d,
@@ -873,7 +904,9 @@ static int build_terms_ue14(vnacal_new_equation_t *vnep)
 	if (!vnmp->vnm_connectivity_matrix[v_cell]) {
 	    continue;
 	}
-	assert(vnprp != NULL);
+	if (vnprp == NULL) {
+	    return err_unknown_s(vnmp, s_cell);
+	}
 	if (vnprp != vnp->vn_zero) {
 	    if (add_term(vnmp, anchors, base_coefficient,
 			/*v_columns*/m_rows, /*negative*/true,
